@@ -783,6 +783,7 @@ def fuse(
         reserved_mem=reserved_mem,
         num_tasks=num_tasks,
         fusable_with_predecessors=True,
+        fusable_with_successors=primitive_op2.fusable_with_successors,
     )
 
 
@@ -843,6 +844,8 @@ def fuse_multiple(
         reserved_mem=reserved_mem,
         num_tasks=num_tasks,
         fusable_with_predecessors=True,
+        # e.g. an operation that writes to a store must stay unfused with its successors
+        fusable_with_successors=primitive_op.fusable_with_successors,
     )
 
 
